@@ -253,10 +253,10 @@ PURE_PREDS = ('big', 'zst', 'needs_drop')
 
 
 class State:
-    __slots__ = ('env', 'fenv', 'events', 'counter', 'pure', 'visits', 'blocks', 'mem')
+    __slots__ = ('env', 'fenv', 'events', 'counter', 'pure', 'visits', 'blocks', 'mem', 'stack', 'body', 'depth')
 
     def __init__(self):
-        self.env = {}
+        self.env = {}     # local key -> value; key = n at depth 0, (n, depth) inside a spliced callee
         self.fenv = {}
         self.events = []
         self.counter = 0
@@ -264,6 +264,9 @@ class State:
         self.visits = {}
         self.blocks = []
         self.mem = {}
+        self.stack = []   # saved caller frames while a crate-local helper is spliced in
+        self.body = None  # body of the current frame (None = the evaluator's root body)
+        self.depth = 0
 
     def clone(self):
         s = State()
@@ -275,7 +278,35 @@ class State:
         s.visits = dict(self.visits)
         s.blocks = list(self.blocks)
         s.mem = dict(self.mem)
+        s.stack = [dict(f, visits=dict(f['visits'])) for f in self.stack]
+        s.body = self.body
+        s.depth = self.depth
         return s
+
+
+def lkey(pl):
+    """environment key of a ('local', n[, depth]) place"""
+    return pl[1] if len(pl) == 2 else (pl[1], pl[2])
+
+
+# crate-local functions that stay atomic events even though they are private (their summaries are rules of their own)
+NO_INLINE_PREFIXES = ('internal::', 'signal::', 'pointer::', 'mutex::', 'backoff::', '<mutex::', '<signal::', '<pointer::',
+                      'future::FutureState::', '<future::')
+NO_INLINE_SUFFIXES = ('::read_local_data', '::drop_local_data', "SendFuture::<'a, T>::new", "ReceiveFuture::<'a, T>::new_ref",
+                      "ReceiveStream::<'a, T>::new_borrowed")
+MAX_INLINE_DEPTH = 2
+
+
+def inlinable(body):
+    j = body.j
+    if j.get('def_kind') not in ('Fn', 'AssocFn'):
+        return False
+    if j.get('vis') == 'Public' or j.get('impl_trait'):
+        return False
+    k = body.key
+    if k.startswith(NO_INLINE_PREFIXES) or k.endswith(NO_INLINE_SUFFIXES):
+        return False
+    return True
 
 
 class TooManyPaths(Exception):
@@ -304,7 +335,7 @@ class Evaluator:
     # ----- value construction -----
     def place(self, st, p):
         """MIR place json -> place tree (resolving the base local when it is deref'ed)"""
-        cur = ('local', p['l'])
+        cur = ('local', p['l']) if st.depth == 0 else ('local', p['l'], st.depth)
         for el in p['p']:
             if el == '*':
                 v = self.read_place(st, cur, None)
@@ -323,10 +354,10 @@ class Evaluator:
     def read_place(self, st, pl, t):
         k = pl[0]
         if k == 'local':
-            n = pl[1]
+            n = lkey(pl)
             if n in st.env:
                 return st.env[n]
-            return ('param', n)
+            return ('param', pl[1]) if len(pl) == 2 else ('param', pl[1], pl[2])
         if k == 'pfield':
             key = self.fkey(pl)
             if key is not None and key in st.fenv:
@@ -381,7 +412,7 @@ class Evaluator:
             pl = pl[1]
         if pl[0] != 'local':
             return None
-        return (pl[1], tuple(reversed(parts)))
+        return (lkey(pl), tuple(reversed(parts)))
 
     def operand(self, st, o):
         k = o['k']
@@ -444,9 +475,10 @@ class Evaluator:
     def assign(self, st, lhs, val, at, bb):
         pl = self.place(st, lhs)
         if pl[0] == 'local':
-            st.env[pl[1]] = val
+            lk = lkey(pl)
+            st.env[lk] = val
             # whole-local assignment invalidates field overrides
-            for key in [k for k in st.fenv if k[0] == pl[1]]:
+            for key in [k for k in st.fenv if k[0] == lk]:
                 del st.fenv[key]
             return
         key = self.fkey(pl)
@@ -469,9 +501,23 @@ class Evaluator:
                 del st.mem[q]
 
     # ----- stepping -----
+    def inline_target(self, st, fn):
+        if not fn or not fn.get('local') or st.depth >= MAX_INLINE_DEPTH:
+            return None
+        facts = self.body.facts
+        cand = facts.bodies.get(fn['path'])
+        if cand is None and fn.get('resolved_local'):
+            cand = facts.bodies.get(fn.get('resolved'))
+        if cand is None or not inlinable(cand):
+            return None
+        cur = st.body or self.body
+        if cand is cur or any(f['body'] is cand for f in st.stack) or cand is self.body:
+            return None  # no recursion
+        return cand
+
     def step(self, b, st, work):
-        body = self.body
         while True:
+            body = st.body or self.body
             v = st.visits.get(b, 0)
             if v > self.k:
                 return  # loop bound reached: drop this path prefix
@@ -492,6 +538,21 @@ class Evaluator:
             k = t['k']
             if k == 'goto':
                 b = t['target']
+                continue
+            if k == 'return' and st.stack:
+                # return from a spliced helper: bind the result in the caller frame and go on there
+                d = st.depth
+                rv = st.env.get((0, d), ('const', '()', 'unit'))
+                fr = st.stack.pop()
+                for key in [kk for kk in st.env if isinstance(kk, tuple) and kk[1] == d]:
+                    del st.env[key]
+                for key in [kk for kk in st.fenv if isinstance(kk[0], tuple) and kk[0][1] == d]:
+                    del st.fenv[key]
+                st.body = fr['body']
+                st.visits = fr['visits']
+                st.depth = d - 1
+                self.assign(st, fr['dest'], rv, t.get('at'), fr['bb'])
+                b = fr['target']
                 continue
             if k == 'return':
                 rv = st.env.get(0, ('param', 0))
@@ -527,6 +588,17 @@ class Evaluator:
                     name = '<indirect>'
                     fo = self.operand(st, t['fnop'])
                     args = (fo,) + args
+                callee = self.inline_target(st, fn)
+                if callee is not None and t.get('target') is not None:
+                    st.events.append(Event('inline', idx=len(st.events), name=name, args=args, at=t.get('at'), bb=b, fn=fn))
+                    st.stack.append({'body': st.body, 'visits': st.visits, 'dest': t['dest'], 'target': t['target'], 'bb': b})
+                    st.depth += 1
+                    st.body = callee
+                    st.visits = {}
+                    for i, a in enumerate(args):
+                        st.env[(i + 1, st.depth)] = a
+                    b = 0
+                    continue
                 cid = st.counter
                 st.counter += 1
                 res = ('call', cid, name, args)
@@ -535,7 +607,7 @@ class Evaluator:
                     a0 = args[0]
                     g = None
                     if a0[0] == 'ref' and a0[1][0] == 'local':
-                        gv = st.env.get(a0[1][1], ('param', a0[1][1]))
+                        gv = st.env.get(lkey(a0[1]), ('param', a0[1][1]))
                         if is_guard(gv):
                             g = gv
                     elif is_guard(a0):
